@@ -149,3 +149,62 @@ Theorem C18_asyncgen_repr_as_found_raises : forall st,
   str_obj_with "stopped" (OAGen st) = None /\ repr_obj_with "stopped" (OAGen st) = None.
 Proof. exact asyncgen_repr_as_found_raises. Qed.
 Print Assumptions C18_asyncgen_repr_as_found_raises.
+
+(* (d') the payload dimension: whatever value a computed future / finished task / batch / Value /
+   scoped value / override holds -- every tuple, string, dict, None, nested future -- str and repr
+   return a text that shows that very payload (never an element of it, never an exception) *)
+Theorem C18_repr_shows_payload : forall p,
+  (forall c, is_future_cls c = true ->
+     str_obj (OFut c (OkV p)) = Some (SFuture (FOk p)) /\ repr_obj (OFut c (OkV p)) = Some (SFuture (FOk p)) /\
+     str_obj (OFut c (ErrV p)) = Some (SFuture (FErr p)) /\ repr_obj (OFut c (ErrV p)) = Some (SFuture (FErr p))) /\
+  (forall it g ds,
+     str_obj (OTask (OkV p) it g ds) = Some (STask (TOk p) (it - 1)) /\
+     repr_obj (OTask (OkV p) it g ds) = Some (SFuture (FOk p)) /\
+     str_obj (OTask (ErrV p) it g ds) = Some (STask (TErr p) (it - 1)) /\
+     repr_obj (OTask (ErrV p) it g ds) = Some (SFuture (FErr p))) /\
+  (forall c its, is_batch_cls c = true ->
+     repr_obj (OBatch c (OkV p) its) = Some (SFuture (FOk p)) /\
+     repr_obj (OBatch c (ErrV p) its) = Some (SFuture (FErr p))) /\
+  str_obj (OValue p) = Some (SValue p) /\ repr_obj (OValue p) = Some (SValue p) /\
+  str_obj (OScoped CScopedValue p) = Some (SScoped p) /\ repr_obj (OScoped CScopedValue p) = Some (SScoped p) /\
+  repr_obj (OScoped CSVOverride p) = Some (SOverride p) /\
+  repr_obj (OScoped CPropOverride p) = Some (SPropOverride p).
+Proof. exact repr_shows_payload. Qed.
+Print Assumptions C18_repr_shows_payload.
+
+(* the first line dump() writes for an object is its str text, or that text cut by debug.str when
+   it is longer than DEBUG_STR_REPR_MAX_LENGTH -- never the n/a text *)
+Theorem C18_dump_line_shows_payload : forall o i, wf o = true ->
+  exists s, str_obj o = Some s /\
+    hd_error (dump_obj o i) =
+      Some (match o with
+            | OTask _ _ _ _ => if (MAX_DUMP_INDENT <? i)%Z then ((i + 1)%Z, DEllipsis)
+                               else (i, if (DEBUG_STR_REPR_MAX_LENGTH <? summary_len s)%Z then DCut else DObj (Some s))
+            | _ => (i, if (DEBUG_STR_REPR_MAX_LENGTH <? summary_len s)%Z then DCut else DObj (Some s))
+            end).
+Proof. exact dump_line_shows_payload. Qed.
+Print Assumptions C18_dump_line_shows_payload.
+
+(* "...%r" % payload with the payload as the bare right operand shows the payload iff it is not
+   a tuple; a tuple is taken as the argument list: TypeError unless it has exactly one element,
+   and then the element is printed in place of the tuple; wrapping it in a 1-tuple is always right *)
+Theorem C18_pct_bare_operand : forall p,
+  ((forall l, p <> PTuple l) -> pct1 p = Some p) /\
+  (forall l, p = PTuple l -> pct1 p = match l with [x] => Some x | _ => None end) /\
+  pct1 (PTuple [p]) = Some p.
+Proof. exact pct_bare_operand. Qed.
+Print Assumptions C18_pct_bare_operand.
+
+(* the code as found: repr/str of a generator.Value holding a tuple (defect witness) *)
+Theorem C18_value_repr_as_found : forall l,
+  str_obj_gen AGEN_REPR_ATTR VALUE_OPERAND_AS_FOUND (OValue (PTuple l)) =
+    match l with [x] => Some (SValue x) | _ => None end /\
+  repr_obj_gen AGEN_REPR_ATTR VALUE_OPERAND_AS_FOUND (OValue (PTuple l)) =
+    match l with [x] => Some (SValue x) | _ => None end.
+Proof. exact value_repr_as_found. Qed.
+Print Assumptions C18_value_repr_as_found.
+
+Theorem C18_value_repr_as_found_agrees_on_non_tuples : forall p, (forall l, p <> PTuple l) ->
+  str_obj_gen AGEN_REPR_ATTR VALUE_OPERAND_AS_FOUND (OValue p) = str_obj (OValue p).
+Proof. exact value_repr_as_found_agrees_on_non_tuples. Qed.
+Print Assumptions C18_value_repr_as_found_agrees_on_non_tuples.
